@@ -141,6 +141,9 @@ impl Check for C07 {
         if cx.index >= LANE_BASE {
             return crate::realcases::c07_case(cx);
         }
+        if cx.index % 64 == 9 {
+            return long_lived_register_case(cx);
+        }
         let root = scratch_dir("c07");
         let (mut sim, env) = node_sim(cx, &root, 0);
         // half of the cases park the store's disk tasks at the gates, which allows "back-to-back" rounds: the next
@@ -612,4 +615,76 @@ impl Check for C07 {
         drop(sim);
         let _ = std::fs::remove_dir_all(&root);
     }
+}
+
+
+/// A long-lived register: whole replicas of several hundred operations arrive one after the other (that is how updates
+/// travel: the sender's whole register), each overlapping what the node already holds. The stored register must end up
+/// with the union as long as the union is within the entry limit - however large the overlap.
+fn long_lived_register_case(cx: &mut Cx) {
+    let root = scratch_dir("c07");
+    let (mut sim, _env) = node_sim(cx, &root, 0);
+    sim.set_gates_controlled(false);
+    sim.policy = Policy::Fifo;
+    let node = sim.nodes[0].node.clone().expect("node layer");
+    let owner = gen::bls_sk(&mut cx.rng);
+    let base = gen::register(&owner, XorName(cx.rng.gen()), Permissions::default());
+    let addr = *base.address();
+    let key = gen::reg_key(&addr);
+    let first = cx.rng.gen_range(505..=530usize);
+    let mut replica = base.clone();
+    let mut all: BTreeSet<RegisterOp> = BTreeSet::new();
+    let mut grow = |replica: &mut SignedRegister, n: usize, rng: &mut rand::rngs::StdRng, all: &mut BTreeSet<RegisterOp>| {
+        for _ in 0..n {
+            // distinct entries (equal entries without predecessors are one and the same operation)
+            let mut entry = (all.len() as u32).to_be_bytes().to_vec();
+            entry.extend(gen::bytes_r(rng, 0, 8));
+            let op = gen::reg_op(addr, entry, BTreeSet::new(), &owner);
+            if replica.add_op(op.clone()).is_ok() {
+                all.insert(op);
+            }
+        }
+    };
+    let mut steps: Vec<(String, usize)> = vec![];
+    grow(&mut replica, 3, &mut cx.rng, &mut all);
+    steps.push(("replica of 3".into(), 3));
+    let mut deliveries = vec![gen::reg_record(&replica)];
+    grow(&mut replica, first - 3, &mut cx.rng, &mut all);
+    steps.push((format!("replica of {first}"), first));
+    deliveries.push(gen::reg_record(&replica));
+    // the same again (a duplicate), then a sibling that shares all but a few operations, then one more step
+    deliveries.push(gen::reg_record(&replica));
+    steps.push((format!("the same replica of {first} again"), first));
+    let mut sibling = replica.clone();
+    grow(&mut sibling, 2, &mut cx.rng, &mut all);
+    grow(&mut replica, 1, &mut cx.rng, &mut all);
+    deliveries.push(gen::reg_record(&replica));
+    steps.push((format!("replica of {}", first + 1), first + 1));
+    deliveries.push(gen::reg_record(&sibling));
+    steps.push((format!("sibling of {} sharing {first}", first + 2), first + 3));
+    for (i, rec) in deliveries.into_iter().enumerate() {
+        let (n2, path_repl) = (node.clone(), i == 0 || cx.rng.gen_bool(0.5));
+        let h = sim.spawn(async move { if path_repl { n2.store_replicated_in_record(rec).await } else { n2.validate_and_store_record(rec).await } });
+        let mut done = || h.is_finished();
+        if !sim.settle(&mut done) {
+            cx.inconclusive("a delivery of a large register did not settle");
+            let _ = std::fs::remove_dir_all(&root);
+            return;
+        }
+        let res = sim.join(h);
+        cx.eval();
+        cx.count("deliveries:large-register");
+        let want = steps[i].1;
+        let have = sim.get_local(0, &key).and_then(|r| try_deserialize_record::<SignedRegister>(&r).ok()).map(|r| r.ops().clone()).unwrap_or_default();
+        let w = json!({"history": steps.iter().take(i + 1).map(|s| s.0.clone()).collect::<Vec<_>>(), "result": format!("{res:?}")});
+        if !have.is_subset(&all) {
+            cx.violation("inadmissible-register-op-stored", "the stored register holds an operation that was never delivered".to_string(), w.clone());
+        }
+        if have.len() < want {
+            cx.violation("register-op-lost", format!("after '{}' the stored register has {} operations; the union of everything delivered so far has {want} (limit 1024)", steps[i].0, have.len()), w);
+            break;
+        }
+    }
+    cx.nontrivial(&("c07-large-register", first));
+    let _ = std::fs::remove_dir_all(&root);
 }
